@@ -402,6 +402,23 @@ def tuple_eq_axioms():
     return ax
 
 
+def eq_by_axioms(cls_name, attr):
+    """a class whose __eq__ compares one attribute: deq on two instances is Python == of that attribute's values"""
+    from .smt import typ as _typ, cid as _cid, sub as _sub
+    hs = [z3.Const("hq_%s" % n, HEAP_SORTS[n]) for n in SPEC_HEAP]
+    dval_ = hs[3]
+    a, b = z3.Const("ea!", V), z3.Const("eb!", V)
+    ra, rb = V.rv(a), V.rv(b)
+    k = V.s(z3.StringVal(attr))
+    x, y = dval_[ra][k], dval_[rb][k]
+    both_num = z3.And(smt.is_num(x), smt.is_num(y))
+    veq = z3.If(both_num, smt.num_real(x) == smt.num_real(y),
+                z3.If(z3.And(is_ref(x), is_ref(y)), z3.Or(x == y, deq(*(hs + [x, y]))), x == y))
+    is_c = z3.And(is_ref(a), is_ref(b), _sub(_typ(ra), _cid(cls_name)), _sub(_typ(rb), _cid(cls_name)))
+    lhs = deq(*(hs + [a, b]))
+    return [z3.ForAll(hs + [a, b], z3.Implies(is_c, lhs == veq), patterns=[lhs])]
+
+
 def _z(x):
     return z3.IntVal(x) if isinstance(x, int) else x
 
